@@ -312,6 +312,11 @@ func vfC20SchedScenarios(thorough bool) []*vfTScenario {
 		{Kind: "seqno", Variant: "sched", Name: "three-1-2-2", Threads: [][]string{l("val:1"), l("val:2"), l("val:2")}},
 		{Kind: "seqno", Variant: "sched", Name: "decreasing-run", Threads: [][]string{l("val:2", "val:1"), l("val:1", "val:0")}},
 		{Kind: "seqno", Variant: "sched", Name: "max-and-zero", Threads: [][]string{l("val:max"), l("val:0", "val:2")}},
+		// sequence numbers spanning more than half of the uint64 range (2^62, 2^63+5, 2^64-1), reached in steps
+		// of less than 2^63, then replays far below the nonce
+		{Kind: "seqno", Variant: "sched", Name: "wide-range-replay", Threads: [][]string{l("val:3", "val:4611686018427387904", "val:9223372036854775813", "val:3", "val:4")}},
+		{Kind: "seqno", Variant: "sched", Name: "wide-range-max", Threads: [][]string{l("val:100", "val:4611686018427387904", "val:13835058055282163711", "val:max", "val:100", "val:101")}},
+		{Kind: "seqno", Variant: "sched", Name: "wide-range-racing", Threads: [][]string{l("val:3", "val:4611686018427387904", "val:3"), l("val:9223372036854775813", "val:5")}},
 	}
 	if thorough {
 		out = append(out, &vfTScenario{Kind: "seqno", Variant: "sched", Name: "three-threads-mixed", Threads: [][]string{l("val:1", "val:3"), l("val:2"), l("val:2", "val:max")}})
